@@ -84,6 +84,51 @@ proof fn axiom_string_keys()
 //@end
 
 // ---------------------------------------------------------------------------------------------------------------------
+// C17: "stale heights from earlier rounds are never reused" — lib.rs::fetch_block_height stores what THIS round fetched: the
+// canister height is replaced by this round's result (None when the call failed), every provider's entry by this round's entry.
+// R7: `async fn` => `fn`; `futures::join!(a, b)` => `(a, b)` (both futures are awaited, their results paired); the thread-local
+// storage cells are passed as `vp_store: &mut WdStore`; `storage::insert_block_info` is the verified slice insert_block_info_body
+// ---------------------------------------------------------------------------------------------------------------------
+struct WdStore { canister_height: Option<u64>, block_info: std::collections::HashMap<String, BlockInfo> }
+// [trusted:stand-in] the two fetches of a round (HTTP outcalls / an inter-canister call): any results
+uninterp spec fn round_explorer_data() -> Seq<BlockInfo>;
+uninterp spec fn round_canister_height() -> Option<u64>;
+#[verifier::external_body]
+fn vp_fetch_all_providers_data() -> (r: Vec<BlockInfo>) ensures r@ == round_explorer_data() { unimplemented!() }
+#[verifier::external_body]
+fn vp_fetch_canister_height() -> (r: Option<u64>) ensures r == round_canister_height() { unimplemented!() }
+// the provider table after the first n results of a round have been stored
+spec fn stored_all(m: Map<String, BlockInfo>, s: Seq<BlockInfo>, n: int) -> Map<String, BlockInfo>
+    decreases n
+{
+    if n <= 0 { m } else { stored_all(m, s, n - 1).insert(s[n - 1].provider, s[n - 1]) }
+}
+//@extract file=watchdog/src/storage.rs item="fn set_canister_height" props=C17
+//@ sigrewrite R7 "fn set_canister_height\(height: Option<u64>\)" => "fn set_canister_height(vp_store: &mut WdStore, height: Option<u64>)"
+//@ rewrite R7 "CANISTER_HEIGHT\.with\(\|cell\| \*cell\.borrow_mut\(\) = height\);" => "{ let cell = &mut vp_store.canister_height; *cell = height; }"
+//@ spec
+//@| ensures final(vp_store).canister_height == height, final(vp_store).block_info == old(vp_store).block_info,
+//@end
+//@extract file=watchdog/src/lib.rs item="fn fetch_block_height" props=C17
+//@ sigrewrite R7 "async fn fetch_block_height\(\)" => "fn fetch_block_height(vp_store: &mut WdStore)"
+//@ rewrite R7 "futures::join!\(\s*fetch::fetch_all_providers_data\(\),\s*fetch::fetch_canister_height\(\),?\s*\)" => "(vp_fetch_all_providers_data(), vp_fetch_canister_height())"
+//@ rewrite R7 "storage::insert_block_info\((\w+)\);" => "insert_block_info_body(&mut vp_store.block_info, \1);"
+//@ rewrite R7 "storage::set_canister_height\(" => "set_canister_height(vp_store, "
+//@ rewrite R1? "storage::get_canister\(\)\.canister_principal\(\)" => "()"
+//@ spec
+//@| ensures
+//@|     final(vp_store).canister_height == round_canister_height(),
+//@|     final(vp_store).block_info@ == stored_all(old(vp_store).block_info@, round_explorer_data(), round_explorer_data().len() as int),
+//@ loop 1 binder=itf
+//@| invariant
+//@|     vp_store.canister_height == old(vp_store).canister_height,
+//@|     vp_store.block_info@ == stored_all(old(vp_store).block_info@, round_explorer_data(), itf.index@ as int),
+//@|     explorer_data@ == round_explorer_data(),
+//@ loopstart 1
+//@| proof { assert(info == round_explorer_data()[itf.index@ as int]); }
+//@end
+
+// ---------------------------------------------------------------------------------------------------------------------
 // C17: calculate_height_target (health.rs:99) for ANY number of explorer heights (the Kani harnesses c17_band_N enumerate N <= 8)
 // R17: `xs.iter().filter(|&x| (lo..=hi).contains(x)).count()` => a counting loop with `lo <= *x && *x <= hi` (definitions of
 // Iterator::filter/count and RangeInclusive::contains)
@@ -129,7 +174,7 @@ spec fn count_in_band(s: Seq<u64>, lo: u64, hi: u64, n: int) -> int
 // `match (a, b) { (Some(s), Some(t)) => Some(e), _ => None }`; `o.map_or(d, |x| e)` => `match o { None => d, Some(x) => e }`
 // ---------------------------------------------------------------------------------------------------------------------
 // [trusted:stand-in] watchdog::config::Config as far as compare reads it (the two getters are extracted)
-struct Config { blocks_behind_threshold: u64, blocks_ahead_threshold: u64, min_explorers: u64 }
+struct Config { blocks_behind_threshold: u64, blocks_ahead_threshold: u64, min_explorers: u64, explorers: Vec<String> }
 impl Config {
 //@extract file=watchdog/src/config.rs in="impl Config" item="fn get_blocks_behind_threshold" props=C17
 //@ ret r
@@ -226,6 +271,60 @@ spec fn target_spec(heights: Seq<u64>, min_explorers: usize, behind: i64, ahead:
 //@| proof {
 //@|     lemma_fetched_small(explorers@, explorers@.len() as int);
 //@| }
+//@end
+
+// ---------------------------------------------------------------------------------------------------------------------
+// C17: health_status (health.rs:86) judges the canister by what fetch_block_height STORED: the stored canister height and the stored
+// entries of the configured explorers, in configuration order; nothing else enters `compare`
+// R17: `xs.iter().filter_map(|e| f(e)).collect::<Vec<_>>()` => a loop pushing the Some results
+// ---------------------------------------------------------------------------------------------------------------------
+uninterp spec fn config_spec() -> Config;
+#[verifier::external_body]
+fn vp_get_config() -> (r: Config) ensures r == config_spec() { unimplemented!() }
+// [trusted:assumed-contract] storage::get_block_info (storage.rs:59: `cell.borrow().get(provider).cloned()`): a lookup by provider name
+#[verifier::external_body]
+fn vp_get_block_info(vp_store: &WdStore, provider: &String) -> (r: Option<BlockInfo>)
+    ensures r == (if vp_store.block_info@.contains_key(*provider) { Some(vp_store.block_info@[*provider]) } else { None::<BlockInfo> }),
+{ unimplemented!() }
+// the stored entries of the first n configured explorers, in configuration order
+spec fn stored_infos(m: Map<String, BlockInfo>, names: Seq<String>, n: int) -> Seq<BlockInfo>
+    decreases n
+{
+    if n <= 0 { Seq::empty() } else if m.contains_key(names[n - 1]) { stored_infos(m, names, n - 1).push(m[names[n - 1]]) } else { stored_infos(m, names, n - 1) }
+}
+proof fn lemma_stored_infos_small(m: Map<String, BlockInfo>, names: Seq<String>, n: int)
+    requires 0 <= n <= names.len(), forall|k: String| #[trigger] m.contains_key(k) ==> (m[k].height matches Some(h) ==> h < 0x4000_0000_0000_0000),
+    ensures forall|i: int| 0 <= i < stored_infos(m, names, n).len() ==> ((#[trigger] stored_infos(m, names, n)[i]).height matches Some(h) ==> h < 0x4000_0000_0000_0000),
+    decreases n
+{
+    if n > 0 {
+        lemma_stored_infos_small(m, names, n - 1);
+        let prev = stored_infos(m, names, n - 1);
+        if m.contains_key(names[n - 1]) {
+            assert forall|i: int| 0 <= i < stored_infos(m, names, n).len() implies ((#[trigger] stored_infos(m, names, n)[i]).height matches Some(h) ==> h < 0x4000_0000_0000_0000) by {
+                if i < prev.len() { assert(prev.push(m[names[n - 1]])[i] == prev[i]); }
+            }
+        }
+    }
+}
+//@extract file=watchdog/src/health.rs item="fn health_status" props=C17
+//@ ret r
+//@ sigrewrite R7 "fn health_status\(\)" => "fn health_status(vp_store: &WdStore)"
+//@ rewrite R7 "crate::storage::get_config\(\)" => "vp_get_config()"
+//@ rewrite R7 "crate::storage::get_canister_height\(\)" => "vp_store.canister_height"
+//@ rewrite R17 "compare\(\s*(.*?),\s*config\s*\.explorers\s*\.iter\(\)\s*\.filter_map\(\|(\w+)\| crate::storage::get_block_info\((\w+)\)\)\s*\.collect::<Vec<_>>\(\),\s*config,?\s*\)" => "let mut vp_infos: Vec<BlockInfo> = Vec::new();\n    for \2 in config.explorers.iter() {\n        if let Some(vp_b) = vp_get_block_info(vp_store, \3) { vp_infos.push(vp_b); }\n    }\n    proof { lemma_stored_infos_small(vp_store.block_info@, config.explorers@, config.explorers@.len() as int); }\n    compare(\1, vp_infos, config)"
+//@ spec
+//@| requires
+//@|     forall|k: String| #[trigger] vp_store.block_info@.contains_key(k) ==> (vp_store.block_info@[k].height matches Some(h) ==> h < 0x4000_0000_0000_0000),
+//@|     vp_store.canister_height matches Some(h) ==> h < 0x4000_0000_0000_0000,
+//@|     config_spec().blocks_behind_threshold <= 1_000_000, config_spec().blocks_ahead_threshold <= 1_000_000, config_spec().min_explorers <= usize::MAX,
+//@| ensures
+//@|     r.canister_height == vp_store.canister_height,
+//@|     r.explorers@ == stored_infos(vp_store.block_info@, config_spec().explorers@, config_spec().explorers@.len() as int),
+//@ loop 1 binder=ith
+//@| invariant
+//@|     config == config_spec(),
+//@|     vp_infos@ == stored_infos(vp_store.block_info@, config.explorers@, ith.index@ as int),
 //@end
 
 // ---------------------------------------------------------------------------------------------------------------------
